@@ -167,9 +167,9 @@ theorem elim_fold_vanishes (ν : ℕ → ℝ) :
       rw [evalAt_uni]; exact hroots xz List.mem_cons_self
 
 /-- **the eliminant vanishes at the value** -/
-theorem eliminant_root (p : MPoly) (a : Asg) (ν : ℕ → ℝ)
+theorem eliminant_root_sem (p : MPoly) (a : Asg) (ν : ℕ → ℝ)
     (hroots : ∀ xz ∈ a, evalR (ZAlg.toQ xz.2.f) (ν xz.1) = 0)
-    (hzp : ∀ t ∈ p, ∀ pr ∈ t.1, pr.1 ≠ zVar) (hza : ∀ xz ∈ a, xz.1 ≠ zVar)
+    (hzp : ∀ v, evalRealM p (Function.update ν zVar v) = evalRealM p ν) (hza : ∀ xz ∈ a, xz.1 ≠ zVar)
     (hne : eliminant p a ≠ []) :
     evalR (ZAlg.toQ (eliminant p a)) (evalRealM p ν) = 0 := by
   set v := evalRealM p ν with hv
@@ -179,7 +179,7 @@ theorem eliminant_root (p : MPoly) (a : Asg) (ν : ℕ → ℝ)
     intro xz hxz
     rw [hν', Function.update_of_ne (hza xz hxz)]; exact hroots xz hxz
   have hA0 : evalAt ν' (MPoly.sub none (ZAlg.varP zVar) p) = 0 := by
-    rw [evalAt_sub, evalAt_varP, hz, ← evalRealM_eq_evalAt, hν', evalRealM_update p ν zVar v hzp]
+    rw [evalAt_sub, evalAt_varP, hz, ← evalRealM_eq_evalAt, hν', hzp v]
     simp [hv]
   have hfold := elim_fold_vanishes ν' a _ hroots' hA0
   unfold eliminant at hne ⊢
@@ -191,6 +191,13 @@ theorem eliminant_root (p : MPoly) (a : Asg) (ν : ℕ → ℝ)
   · exfalso; apply hne
     unfold ZAlg.dense
     rw [if_neg hu]
+
+theorem eliminant_root (p : MPoly) (a : Asg) (ν : ℕ → ℝ)
+    (hroots : ∀ xz ∈ a, evalR (ZAlg.toQ xz.2.f) (ν xz.1) = 0)
+    (hzp : ∀ t ∈ p, ∀ pr ∈ t.1, pr.1 ≠ zVar) (hza : ∀ xz ∈ a, xz.1 ≠ zVar)
+    (hne : eliminant p a ≠ []) :
+    evalR (ZAlg.toQ (eliminant p a)) (evalRealM p ν) = 0 :=
+  eliminant_root_sem p a ν hroots (fun v => evalRealM_update p ν zVar v hzp) hza hne
 
 /-- the eliminant only depends on the variables and defining polynomials of the assignment -/
 theorem eliminant_congr (p : MPoly) (a a' : Asg)
@@ -218,9 +225,9 @@ theorem eliminant_congr (p : MPoly) (a a' : Asg)
 
 /-- **C10, unconditional**: the sign answered by the model is the sign of the value, for every integer polynomial
     and every assignment of valid algebraic numbers whose defining polynomials vanish at them -/
-theorem C10_sign_exact (p : MPoly) (a : Asg) (ν : ℕ → ℝ) (s : Int) (hden : AsgDen a ν)
+theorem C10_sign_exact_sem (p : MPoly) (a : Asg) (ν : ℕ → ℝ) (s : Int) (hden : AsgDen a ν)
     (hroots : ∀ xz ∈ a, evalR (ZAlg.toQ xz.2.f) (ν xz.1) = 0)
-    (hzp : ∀ t ∈ p, ∀ pr ∈ t.1, pr.1 ≠ zVar) (hza : ∀ xz ∈ a, xz.1 ≠ zVar)
+    (hzp : ∀ v, evalRealM p (Function.update ν zVar v) = evalRealM p ν) (hza : ∀ xz ∈ a, xz.1 ≠ zVar)
     (h : exactSign p a = some s) : SignIs s (evalRealM p ν) := by
   apply C10_sign_sound p a ν s hden _ h
   intro a' R hmap hsq
@@ -229,8 +236,14 @@ theorem C10_sign_exact (p : MPoly) (a : Asg) (ν : ℕ → ℝ) (s : Int) (hden 
   · -- no eliminant: the zero polynomial vanishes everywhere, and so does anything with the same roots
     rw [hne] at hsq
     exact (sqfreePart_sound _ R hsq (evalRealM p ν)).1 (by simp [ZAlg.toQ, evalR_nil])
-  · have hr := eliminant_root p a ν hroots hzp hza hne
+  · have hr := eliminant_root_sem p a ν hroots hzp hza hne
     exact (sqfreePart_sound _ R hsq (evalRealM p ν)).1 hr
+
+theorem C10_sign_exact (p : MPoly) (a : Asg) (ν : ℕ → ℝ) (s : Int) (hden : AsgDen a ν)
+    (hroots : ∀ xz ∈ a, evalR (ZAlg.toQ xz.2.f) (ν xz.1) = 0)
+    (hzp : ∀ t ∈ p, ∀ pr ∈ t.1, pr.1 ≠ zVar) (hza : ∀ xz ∈ a, xz.1 ≠ zVar)
+    (h : exactSign p a = some s) : SignIs s (evalRealM p ν) :=
+  C10_sign_exact_sem p a ν s hden hroots (fun v => evalRealM_update p ν zVar v hzp) hza h
 
 end Eval
 end LP
